@@ -1243,6 +1243,8 @@ fn designator_to_asg(
                 };
                 Some(width)
             } else {
+                // A width must be a compile-time constant.
+                context.insert_error(ConstIntegerError, &identifier);
                 None
             }
         }
